@@ -25,9 +25,9 @@ RIGS = {
 
 # runs per (tier, rig, property); sized on 16 cores (see DESIGN section 9)
 PLAN = {
-    "quick": {("C16", "r1a"): 2400, ("C16", "r1b"): 2400, ("C16", "r3"): 320,
-              ("C17", "r2"): 4800, ("C17", "r3"): 480,
-              ("C19", "r4a"): 4800, ("C19", "r4b"): 480},
+    "quick": {("C16", "r1a"): 4800, ("C16", "r1b"): 8000, ("C16", "r3"): 640,
+              ("C17", "r2"): 6400, ("C17", "r3"): 800,
+              ("C19", "r4a"): 24000, ("C19", "r4b"): 2400},
     "thorough": {("C16", "r1a"): 150000, ("C16", "r1b"): 400000, ("C16", "r3"): 40000,
                  ("C17", "r2"): 200000, ("C17", "r3"): 60000,
                  ("C19", "r4a"): 800000, ("C19", "r4b"): 200000},
